@@ -33,14 +33,14 @@ package dns
 //@ uninterp func tlsaRecs(r ExtResolver, name string) []TLSA
 //@ uninterp func tlsaErr(r ExtResolver, name string) error
 //@ func (ExtResolver).CheckCNAMEAD
-//@   prop C05
+//@   prop C05 C13
 //@   trusted
 //@   ensures ad == ckAD(e, host) && rname == ckName(e, host) && err == ckErr(e, host)
 //@ func (ExtResolver).AuthLookupCNAME
-//@   prop C05
+//@   prop C05 C13
 //@   trusted
 //@   ensures ad == cnAD(e, host) && err == cnErr(e, host)
 //@ func (ExtResolver).AuthLookupTLSA
-//@   prop C05
+//@   prop C05 C13
 //@   trusted
 //@   ensures ad == tlsaAD(e, domain) && recs == tlsaRecs(e, domain) && err == tlsaErr(e, domain)
